@@ -18,15 +18,20 @@ import inspect
 import json
 
 from harness import c10_locate as L
+from harness import c10_props as PR
 
 LOC_NOTES = []      # sentences of the locators (a private name was gone, a fallback through public behaviour was used)
 
-STREAMS = ['dispatch-random', 'dispatch-lookup-grid', 'dispatch-deferred', 'dispatch-builtin']
+STREAMS = ['dispatch-random', 'dispatch-lookup-grid', 'dispatch-deferred', 'dispatch-builtin',
+           'dispatch-unexport-deferred', 'dispatch-properties']
 THEOREMS = [
     'at_most_one_reply', 'exactly_one_if_expected', 'none_if_no_reply_and_dispatched',
     'reply_addressing', 'runs_iff', 'lookup_failure_reply', 'unbound_reply', 'asks_for_caller_iff',
     'source_send_error_total', 'result_encoding', 'error_reply_name', 'unencodable_value_one_error',
     'prefix_model_violates_exactly_one', 'unbound_witness', 'unexport_witness', 'table_shape',
+    'deferred_after_unexport_one_reply', 'deferred_after_unexport_witness', 'builtin_reply', 'builtin_witness',
+    'properties_call_reply_is_c17', 'properties_get_error_exact', 'properties_lookup_errors', 'builtin_table_shape',
+    'properties_witness',
 ]
 TRUSTED_BASE = [
     'Python attribute lookup along __mro__, dict order of class __dict__, inspect.getfullargspec, '
@@ -580,31 +585,44 @@ class Built:
 
     # -- the object tokens of the model, read off the REAL classes
     @staticmethod
+    def class_tokens(k):
+        """One class of an __mro__ as the model's `Class`: dbusInterfaces (methods only) and the functions of its
+        __dict__.  Functions of the library's DBusObject carry the ids of the generated table
+        (tools/tables/c10_builtin.py: 10000 + position), harness functions their `_fid`."""
+        from txdbus import objects
+        lib = {id(f): 10000 + n for n, (_, f) in
+               enumerate((a, f) for a, f in vars(objects.DBusObject).items() if inspect.isfunction(f))}
+        d = vars(k)
+        has = 'dbusInterfaces' in d
+        ifs = d['dbusInterfaces'] if has else []
+        toks = ['1' if has else '0', str(len(ifs))]
+        for i in ifs:
+            toks += [str_hex(i.name), str(len(i.methods))]
+            for mn, m in i.methods.items():
+                toks += [str_hex(mn), str_hex(m.sigIn), str_hex(m.sigOut), str(L.nret_of(_marshal_mod(), m))]
+        fns = [(n, f) for n, f in d.items() if inspect.isfunction(f)]
+        toks.append(str(len(fns)))
+        for n, f in fns:
+            code = f.__code__
+            pos = code.co_varnames[:code.co_argcount]       # positional parameter names, self included
+            fid = getattr(f, '_fid', None)
+            if fid is None:
+                fid = lib.get(id(f), 9000 + sum(map(ord, n)) % 997)
+            toks += [str_hex(n), str(fid)]
+            d2 = deco_of(f)
+            if d2 is not None:
+                toks += ['1', str_hex(d2[0]), str_hex(d2[1])]
+            else:
+                toks.append('0')
+            toks += [str(len(pos))] + [str_hex(x) for x in pos]
+        return toks
+
+    @staticmethod
     def obj_tokens(path, obj):
         mro = [k for k in type(obj).__mro__ if k is not object]
         toks = [str_hex(path), str(len(mro))]
         for k in mro:
-            d = vars(k)
-            has = 'dbusInterfaces' in d
-            ifs = d['dbusInterfaces'] if has else []
-            toks += ['1' if has else '0', str(len(ifs))]
-            for i in ifs:
-                toks += [str_hex(i.name), str(len(i.methods))]
-                for mn, m in i.methods.items():
-                    toks += [str_hex(mn), str_hex(m.sigIn), str_hex(m.sigOut), str(m.nret)]
-            fns = [(n, f) for n, f in d.items() if inspect.isfunction(f)]
-            toks.append(str(len(fns)))
-            for n, f in fns:
-                code = f.__code__
-                pos = code.co_varnames[:code.co_argcount]       # positional parameter names, self included
-                fid = getattr(f, '_fid', 9000 + sum(map(ord, n)) % 997)
-                toks += [str_hex(n), str(fid)]
-                d2 = deco_of(f)
-                if d2 is not None:
-                    toks += ['1', str_hex(d2[0]), str_hex(d2[1])]
-                else:
-                    toks.append('0')
-                toks += [str(len(pos))] + [str_hex(x) for x in pos]
+            toks += Built.class_tokens(k)
         return toks
 
     def export_lines(self):
@@ -1351,6 +1369,60 @@ def gen_scenario(rng, n_ops=6, deferred_bias=0.0, hostile=False, rich=False, pro
     return {'decls': decls, 'ops': gen_history(rng, decls, n_ops, deferred_bias, hostile, builtin_bias)}
 
 
+def gen_unexport_deferred(rng):
+    """Objects that go while a call is outstanding: call (its method returns an unfired Deferred) ->
+    `unexportObject` of the call's path -> [another call to that path: UnknownObject] -> the Deferred
+    fires (value / failure) -> [the path is exported again, maybe with another class] -> [it fires again].
+    Returns (scenario, number of Deferreds fired after their object was unexported)."""
+    decls = gen_decls(rng)
+    probe = Built(decls)
+    exportable = [i for i, c in enumerate(decls['classes']) if c['bases'] != ['plain']]
+    ops, fired_after = [], 0
+    for _ in range(rng.randrange(1, 4)):
+        op = None
+        for _try in range(12):
+            cand = gen_call(rng, decls, builtin_bias=0.0)
+            if cand['path'] in probe.exported and expected_of(probe, cand)['v'] in ('run', 'ambiguous'):
+                op = cand
+                break
+        if op is None:
+            op = gen_call(rng, decls)
+        exp = expected_of(probe, op)
+        so = exp.get('sig_out', rng.choice(SIGS))
+        op['outcome'] = {'kind': 'deferred'}
+        if rng.random() < 0.8:
+            op['expectReply'] = True
+        k = len(ops)
+        ops.append(op)
+        dispatched = exp['v'] in ('run', 'ambiguous')
+        if rng.random() < 0.25:
+            # an unrelated export in between
+            e = {'op': 'export', 'path': rng.choice(PATHS), 'cls': rng.choice(exportable)}
+            probe.export(e)
+            ops.append(e)
+        gone = op['path'] in probe.exported
+        ops.append({'op': 'unexport', 'path': op['path']})
+        probe.unexport(op['path'])
+        if rng.random() < 0.5:
+            again = dict(op, serial=rng.randrange(1, 2 ** 32), outcome=gen_outcome(rng, so))
+            ops.append(again)
+        ops.append({'op': 'resolve', 'k': k, 'res': gen_resolution(rng, so)})
+        if dispatched and gone:
+            fired_after += 1
+        if rng.random() < 0.5:
+            e = {'op': 'export', 'path': op['path'], 'cls': rng.choice(exportable)}
+            probe.export(e)
+            ops.append(e)
+            if rng.random() < 0.6:
+                again = gen_call(rng, decls)
+                again['path'] = op['path']
+                again['outcome'] = gen_outcome(rng, expected_of(probe, again).get('sig_out', rng.choice(SIGS)))
+                ops.append(again)
+        if rng.random() < 0.3:
+            ops.append({'op': 'resolve', 'k': k, 'res': gen_resolution(rng, so)})      # fires twice: nothing more is sent
+    return {'decls': decls, 'ops': ops}, fired_after
+
+
 GRID_DECLS = {
     'ifaces': [
         {'name': 'org.a', 'methods': [['one', 's', 's'], ['two', '', 'as'], ['x1', 'i', '']]},
@@ -1563,6 +1635,11 @@ def run(ctx):
 def _run(ctx, rng):
     # corpus first
     for name, data in ctx.corpus():
+        pc = data.get('props_case') or data.get('input', {}).get('props_case')
+        if pc is not None:
+            PR.run_stream(ctx, 'dispatch-properties', [pc])
+            ctx.stat('corpus')
+            continue
         spec = data.get('scenario') or data.get('input', {}).get('scenario')
         if spec is None:
             continue
@@ -1590,6 +1667,19 @@ def _run(ctx, rng):
         # generator no longer reaches it, say so loudly instead of passing with the coverage gone
         raise RuntimeError('stream dispatch-builtin did not produce a single GetManagedObjects call whose reply '
                            'cannot be built: the property values meant to be unmarshallable are not stored any more')
+    # objects unexported while a call is outstanding: the Deferred fires afterwards
+    n = ctx.scale(quick=160, thorough=2500)
+    pairs = [gen_unexport_deferred(rng) for _ in range(n)]
+    run_batch(ctx, 'dispatch-unexport-deferred', [p[0] for p in pairs])
+    ctx.stat('Deferred fired after its object was unexported (exercised)', sum(p[1] for p in pairs))
+    if not sum(p[1] for p in pairs):
+        raise RuntimeError('stream dispatch-unexport-deferred did not fire a single Deferred after its object was unexported')
+    # calls to org.freedesktop.DBus.Properties and the built-in interfaces on objects with properties, in histories
+    # with export / unexport / assignment: the dispatcher composed with C17's model (harness/c10_props.py)
+    n = ctx.scale(quick=260, thorough=4000)
+    ncalls = PR.run_stream(ctx, 'dispatch-properties', [PR.gen_case(rng) for _ in range(n)])
+    if not ncalls:
+        raise RuntimeError('stream dispatch-properties made no call')
     # oracle only: exception texts with lone surrogates (not representable as Lean `Char`)
     n = ctx.scale(quick=150, thorough=1200)
     run_batch(ctx, 'oracle-hostile-text', [gen_scenario(rng, n_ops=4, hostile=True) for _ in range(n)],
@@ -1599,6 +1689,10 @@ def _run(ctx, rng):
 def replay(ctx, data):
     quiet_twisted()
     inp = data.get('input') or {}
+    pc = inp.get('props_case') or data.get('props_case')
+    if pc is not None:
+        PR.run_stream(ctx, 'replay', [pc])
+        return
     spec = inp.get('scenario') or data.get('scenario')
     if spec is None:
         ctx.note('replay file carries no scenario')
